@@ -1,8 +1,9 @@
 (* Order facts for C14: IntentionPrecedenceSorter's comparison is a strict weak order, the
    stable insertion sort sorts, and "first match in the sorted list" is "the smallest
    matching element, first one on ties" ([best]). *)
-From Coq Require Import OrderedTypeEx.
-From Verif Require Import Base.Prelude RBAC.Model.
+From Coq Require Import OrderedTypeEx Sorted.
+From Verif Require Import Base.Prelude.
+From Verif Require Import RBAC.Model.
 Local Open Scope bool_scope.
 
 (* ------------------------------------------------------------------ comparisons *)
@@ -104,8 +105,9 @@ Section Sort.
 
   Lemma In_sort_by l z : In z (sort_by lt l) <-> In z l.
   Proof.
-    induction l as [|x l IH]; cbn; [tauto|].
-    rewrite In_insert_by, IH. intuition congruence.
+    induction l as [|x l IH]; [cbn; tauto|].
+    change (sort_by lt (x :: l)) with (insert_by lt x (sort_by lt l)).
+    rewrite In_insert_by, IH. cbn. intuition congruence.
   Qed.
 
   Lemma insert_sorted x l : sorted l -> sorted (insert_by lt x l).
@@ -125,7 +127,8 @@ Section Sort.
 
   Lemma sort_sorted l : sorted (sort_by lt l).
   Proof.
-    induction l as [|x l IH]; cbn; [constructor|]. apply insert_sorted; exact IH.
+    induction l as [|x l IH]; [constructor|].
+    change (sort_by lt (x :: l)) with (insert_by lt x (sort_by lt l)). apply insert_sorted; exact IH.
   Qed.
 
   (* the smallest P-element, computed from the right: x wins unless a later one is strictly smaller *)
@@ -163,7 +166,8 @@ Section Sort.
 
   Lemma find_sort P l : find P (sort_by lt l) = rmin P l.
   Proof.
-    induction l as [|x l IH]; cbn; [reflexivity|].
+    induction l as [|x l IH]; [reflexivity|].
+    change (sort_by lt (x :: l)) with (insert_by lt x (sort_by lt l)).
     rewrite find_insert by apply sort_sorted. rewrite IH. reflexivity.
   Qed.
 
